@@ -215,3 +215,7 @@ harness! { fn c03_unchecked_direct_foo_3() unwind(5) { unchecked_conversion_dire
 harness! { fn c03_world_unknown_contains() unwind(3) { world_unknown_id::<w1::Foo>(0, 77) } }
 harness! { fn c03_world_unknown_to_direct() unwind(3) { world_unknown_id::<w1::Foo>(1, 0) } }
 harness! { fn c03_world_unknown_destroy() unwind(3) { world_unknown_id::<w1::Foo>(2, 254) } }
+// a world declaring exactly ONE archetype (generated dispatch tables with a single arm)
+harness! { fn c03_world1_unknown_contains() unwind(3) { world_unknown_id::<crate::worlds::w16::Wide>(0, 77) } }
+harness! { fn c03_world1_unknown_to_direct() unwind(3) { world_unknown_id::<crate::worlds::w16::Wide>(1, 255) } }
+harness! { fn c03_world1_unknown_destroy() unwind(3) { world_unknown_id::<crate::worlds::w16::Wide>(2, 1) } }
